@@ -22,11 +22,13 @@
 (* One action per write statement kind, parameterised by the front end r   *)
 (* that received it, and Restart = the start-up recovery of main.rs.       *)
 (*                                                                         *)
-(* IDEAL: an acknowledged write is reflected on disk (dnodes' = nodes',    *)
-(* drels' = rels'), hence  Durable  and  Restart => served' = served.      *)
-(* The two known deviations describe what the pinned tree persists         *)
-(* instead.  Whether a write is acknowledged is not C19's business: every  *)
-(* write action may be refused (ack = FALSE) and then changes nothing.     *)
+(* IDEAL: what an acknowledged write created or changed is written to the  *)
+(* data directory and what it deleted is removed from it (Persist), hence  *)
+(* Durable (disk = served) and  Restart => served' = served.  The two      *)
+(* known deviations describe what the pinned tree persists instead.        *)
+(* Whether a write is acknowledged is not C19's business: every write may  *)
+(* be refused (Refused) and then changes nothing.  Which ids new nodes and *)
+(* relationships get is open (any free id).                                *)
 (***************************************************************************)
 EXTENDS Naturals, Sequences, FiniteSets, TLC
 
